@@ -16,9 +16,22 @@ GenHeader ==
              THEN Pick({x \in Times : x > cons[th].time /\ x < now + Drift}) ELSE Pick(Times)} : \E nx \in {Pick(ValSets)} : \E rv \in {IF Pick(1..8) = 1 THEN 1 - RevOf(th) ELSE RevOf(th)} : \E rt \in {Pick(Roots)} :
      LET hd == [height |-> h, rev |-> rv, time |-> t, vals |-> vs, next |-> nx, signers |-> sg, th |-> th, tvals |-> tv, root |-> rt] IN
      UpdateEff(hd) /\ last' = [act |-> "Update", res |-> Res(Accept(hd)), hd |-> hd]
+(* a second header for a height the client already holds, equal to the stored one in time and next validators but with *)
+(* another app hash (and a first header for a height a governance upgrade filled)                                     *)
+Refillable == {k \in DOMAIN cons : \E th \in DOMAIN cons : RevOf(th) = RevOf(k) /\ NumOf(th) < NumOf(k) /\ cons[th].time < cons[k].time /\ NumOf(k) \in Heights}
+GenSameHeight ==
+  /\ Refillable # {}
+  /\ \E k \in {Pick(Refillable)} :
+     \E th \in {Pick({x \in DOMAIN cons : RevOf(x) = RevOf(k) /\ NumOf(x) < NumOf(k) /\ cons[x].time < cons[k].time})} :
+     \E vs \in {IF NumOf(k) = NumOf(th) + 1 THEN cons[th].next ELSE Pick(ValSets)} :
+     \E rt \in {Pick((Roots \ {cons[k].root}) \cup (IF Pick(1..4) = 1 THEN {cons[k].root} ELSE {}))} :
+     LET hd == [height |-> NumOf(k), rev |-> RevOf(k), time |-> cons[k].time, vals |-> vs, next |-> cons[k].next,
+                signers |-> (DOMAIN vs) \cup DOMAIN cons[th].next, th |-> th, tvals |-> cons[th].next, root |-> rt] IN
+     UpdateEff(hd) /\ last' = [act |-> "Update", res |-> Res(Accept(hd)), hd |-> hd]
 MNext ==
   /\ Len(hist) < Depth + 1
-  /\ \E w \in {Pick(1..11)} :
+  /\ \E w \in {IF Refillable # {} /\ Pick(1..6) = 1 THEN 12 ELSE Pick(1..11)} :
+       \/ w = 12 /\ GenSameHeight
        \/ w = 11 /\ \E r \in {IF Pick(1..4) = 1 THEN 0 ELSE 1}, h \in {Pick(Heights)}, nx \in {Pick(ValSets)}, rt \in {Pick(Roots)} :
               UpgradeEff(r, h, nx, rt) /\ last' = [act |-> "Upgrade", res |-> "ok", rev |-> r, h |-> h, next |-> nx, root |-> rt]
        \/ w <= 8 /\ GenHeader
